@@ -189,6 +189,15 @@ def _decide(ctx, verdict, rule, instance, where, why, construct, stmt, detail=""
     return ctx.check(ok, rule, instance, where, "%s: %s" % (why, msg), construct=construct, stmt=stmt, detail=detail)
 
 
+def _strip_upd(k):
+    """The object under `x«m(...)»` wrappers (TermFlow's mark for 'x after the statement x.m(...)')."""
+    a = key_atom(k) if isinstance(k, tuple) else None
+    while a is not None and a[0] == "upd":
+        k = a[2]
+        a = key_atom(k)
+    return k
+
+
 def _stores(ex):
     return [e for e in ex.events if e.name == "store_sub"]
 
@@ -386,41 +395,54 @@ def _fold(ctx, info):
             return None
         return row_key(a[2])
 
-    ok_child, ok_prev, ok_rows, why_c, why_p = True, True, (True, ""), "", ""
-    rows = {}
+    roots = [_root(vkey(D0)), _root(vkey(_sub(P(0), ZERO)))] + [_root(vkey(Poly.atom(("elem", vkey(P(0)), k)))) for k in range(K)]
+
+    def ordinal(row):
+        """r when `row` is the r-th pseudo-element of a loop over all rows (of D or of any child: the
+        children share one shape, so loops over the rows of different children name the same rows)"""
+        lp = _loop(row) if row is not None else None
+        a = _atom(row) if row is not None else None
+        if lp is None or _covers(lp, 0, roots, 0)[0] is not True:
+            return None
+        return a[2]
+
+    d_stores = [e for e in _stores(ex) if vkey(e.args[0]) == vkey(D0)]
+    ok_child, ok_prev, ok_back, ok_rows, why_c, why_p, why_b = True, True, True, (True, ""), "", "", ""
+    row_dom = {}
     for n, e in enumerate(evs):
         k, r = divmod(n, K)
         child = Poly.atom(("elem", vkey(P(0)), k))
         rc = row_of(e.args[pp], child)
-        if rc is None:
+        if n == 0:
+            ok_rows = _covers(_loop(rc), 0, roots, 0) if rc is not None and _loop(rc) is not None else (False, "the child is not read at the row loop's index (%s)" % show(e.args[pp]))
+        if rc is None or (ok_rows[0] is True and ordinal(rc) != r):
             ok_child, why_c = False, "call %d passes %s as the child row: not row r of the %s child of the list, taken in list order" % (n, show(e.args[pp]), "first" if k == 0 else "next")
             continue
-        rows.setdefault(r, rc)
-        lp = _loop(rc)
-        if r == 0 and k == 0:
-            ok_rows = _covers(lp, 0, [_root(vkey(D0)), _root(vkey(child)), _root(vkey(_sub(P(0), ZERO)))], 0)
+        row_dom[(k, r)] = _atom(rc)[1] if _atom(rc) is not None else None
         prev = e.args[1 - pp]
+        pr = row_of(prev, D0)
         if k == 0:
-            want = row_of(prev, D0)
-            good = want is not None and _eq(want, rc)
+            good = pr is not None and _eq(pr, rc)
         else:
             before = evs[(k - 1) * K + r]
             good = vkey(prev) == vkey(_sub(callterm(before), Poly.const(pos["value"])))
+            if not good and pr is not None and _eq(pr, rc) and ordinal(pr) == r and row_dom.get((k - 1, r)) != row_dom[(k, r)]:
+                # the row loop is re-declared per child (`range(child.shape[0])`): same row under another
+                # name, so the interpreter could not connect the read with the previous child's store
+                # (which the write-back obligation below establishes for every call)
+                good = True
         if not good:
             ok_prev, why_p = False, "call %d (child %d, row %d) convolves with %s, not with row r of the running D left by the previous child" % (n, k, r, show(prev))
+        # D row r written back from the value slot of this very call
+        want = _sub(callterm(e), Poly.const(pos["value"]))
+        back = [s for s in d_stores if vkey(s.args[2]) == vkey(want)]
+        if len(back) != 1 or row_key(vkey(back[0].args[1])) is None or not _eq(row_key(vkey(back[0].args[1])), rc):
+            ok_back, why_b = False, "the maxima of call %d (child %d, row %d) are %s" % (n, k, r, "never stored into D" if not back else "stored at D[%s], not at row r of D" % show(back[0].args[1]))
     ctx.check(ok_child, "X1", "compute_log_D: children folded in list order, row r of child k", f.where(evs[0].node), why_c, construct=Q, stmt="fold child argument")
     ctx.check(ok_prev, "X1", "compute_log_D: row r convolved with the running D row r", f.where(evs[0].node), why_p, construct=Q, stmt="fold running argument")
     _decide(ctx, ok_rows, "X1", "compute_log_D: every row (sample) is folded", f.where(evs[0].node), "a sample is skipped", Q, "fold row bound")
-    # D row written back from the value slot of the same call
-    subs = ex.sub_stores()
-    ok, why = True, ""
-    for r in range(K):
-        last = evs[(K - 1) * K + r]
-        want = _sub(callterm(last), Poly.const(pos["value"]))
-        got = [v for (b, ik), v in subs.items() if b == vkey(D0) and r in rows and row_key(ik) is not None and _eq(row_key(ik), rows[r])]
-        if len(got) != 1 or vkey(got[0]) != vkey(want):
-            ok, why = False, "row %d of D ends as %s, not as the maxima returned by the convolution of that row (%s)" % (r, show(got[0]) if got else "never written", show(want))
-    ctx.check(ok, "X1", "compute_log_D: D[r, :] updated from the maxima of the same call", f.where(evs[0].node), why, construct=Q, stmt="fold write-back")
+    ctx.check(ok_back and len(d_stores) == len(evs), "X1", "compute_log_D: D[r, :] updated from the maxima of the same call", f.where(evs[0].node),
+              why_b or "D is written %d times for %d convolutions" % (len(d_stores), len(evs)), construct=Q, stmt="fold write-back")
     # pointer tables: choices[k][r]
     ok, why = len(choices.items) == K, "the list of pointer tables has %d entries for %d children" % (len(choices.items), K)
     if ok:
@@ -471,15 +493,16 @@ def rule_X2(ctx, info):
     idxs = {vkey(e.args[1]) for e in loop_sts}
     e0 = loop_sts[0]
     ij = e0.args[1]
-    if len(idxs) != 1 or not isinstance(ij, ATuple) or len(ij.items) != 2:
-        ctx.fail("X2", "compute_log_S: all four stores address [i, j]", f.where(e0.node), "the stores of the two arms address different cells: %s" % sorted(show(_poly(k)) if _is_polykey(k) else str(k) for k in idxs), construct=Q, stmt="store index")
-        return
+    if not isinstance(ij, ATuple) or len(ij.items) != 2 or not all(isinstance(x, Poly) for x in ij.items):
+        raise AnalysisError("C10/X2: the stores of %s are not addressed [row, column]" % Q)
+    if len(idxs) != 1:
+        ctx.fail("X2", "compute_log_S: all four stores address [i, j]", f.where(e0.node), "the stores of the two arms address different cells: %s" % sorted(show(e.args[1]) for e in loop_sts), construct=Q, stmt="store index")
     ti, tj = ij.items
     li, lj = _loop(ti), _loop(tj)
     roots = [_root(vkey(D)), _root(Sk), _root(Ck)]
     _decide(ctx, _covers(li, 0, roots, 0), "X2", "compute_log_S: every row (sample)", f.where(e0.node), "a sample is skipped", Q, "row bound")
     _decide(ctx, _covers(lj, 1, roots, 1), "X2", "compute_log_S: every column from 1", f.where(e0.node), "a grid column is skipped (or column 0 is recomputed from column -1)", Q, "column bound")
-    prev_idx = ATuple([ti, tj - ONE]) if isinstance(tj, Poly) else None
+    prev_idx = ATuple([ti, tj - ONE])
     d_now = _sub(D, ij)
     s_prev = _sub(S, prev_idx)
     c_prev = _sub(C, prev_idx)
@@ -578,7 +601,7 @@ def rule_X3(ctx, info):
                 me[%r] = %s
                 me["log_R_max"] = me["log_p"] + %s
         """ % (leaf, keyname["D_choice"], names[pos["D_choice"]], keyname["S_choice"], names[pos["S_choice"]], names[pos["S"]])
-        specs.append(spec(prog, src, f, no_inline=["compute_log_S"]))
+        specs.append(spec(prog, src, f, no_inline=["compute_log_S", "compute_max_likelihood"]))
     gs = ex.sub_stores()
     node_key = vkey(_sub(_attr(P(0), "nodes"), P(1)))
     for what in ("log_R_max", keyname["D_choice"], keyname["S_choice"]):
@@ -600,7 +623,6 @@ def rule_X3(ctx, info):
     order = [e.name for e in ex.events if e.name in ("compute_max_likelihood", "compute_log_S")]
     ok = "compute_log_S" in order and "compute_max_likelihood" in order and order.index("compute_log_S") > max(n for n, x in enumerate(order) if x == "compute_max_likelihood")
     ctx.check(ok, "X3", "compute_max_likelihood: children processed before the node", f.where(), "the children's R_max is read before the recursive calls have computed it", construct=Q, stmt="children first")
-    info["fwd_children"] = ("mcall", "successors")
     ctx.analysed(f)
     _conversion(ctx)
 
@@ -644,7 +666,7 @@ def _conversion(ctx):
         if r is not None and r[0] == "sub" and a is not None and a[0] == "mcall" and a[1] == "to_dict":
             holder = key_atom(r[1])
             nid = key_atom(r[2])
-            good = holder == ("attr", vkey(G), "nodes") and nid is not None and nid[0] == "attr" and nid[2] == "node_id" and nid[1] == a[2]
+            good = holder is not None and holder[0] == "attr" and holder[2] == "nodes" and _strip_upd(holder[1]) == vkey(G) and nid is not None and nid[0] == "attr" and nid[2] == "node_id" and nid[1] == a[2]
         if not good:
             ok, why = False, "%s.update(%s): the payload of a node is not attached under that node's own node_id in the new graph" % (show(e.recv), show(e.args[0]) if e.args else "")
     ctx.check(ok, "X3", "convert_rustworkx_to_networkx: node payload attached under the node's id", f.where(ups[0].node) if ups else f.where(), why, construct=Q, stmt="node payload")
@@ -673,7 +695,7 @@ def _conversion(ctx):
 # --------------------------------------------------------------------------- X4
 def rule_X4(ctx, info):
     prog = ctx.prog
-    ctx.rule("X4", "traceback agrees with the forward pass: root index grid-1 in every sample; start total S_choice[d, idx[d]]; children in reverse order of the same successor list; child index D_choice[i][d, total] then total -= index; recursion on the child's own vector", 10)
+    ctx.rule("X4", "traceback agrees with the forward pass: root index grid-1 in every sample; start total S_choice[d, idx[d]]; children in reverse order of the same successor list; child index D_choice[i][d, total] then total -= index; recursion on the child's own vector", 4)
     kn = info["keyname"]
     # ---- root
     f = prog.fn(MAP + "set_max_assignment")
@@ -704,6 +726,9 @@ def rule_X4(ctx, info):
     reset = [e for e in sts if e.args[1] == "max_idx"]
     tot = [e for e in sts if isinstance(e.args[0], AList)]
     fill = [e for e in sts if e not in reset and e not in tot]
+    if len(reset) == 1 and len(fill) == 1 and not tot:
+        ctx.fail("X4", "_set_max_assignment: total -= child index", f.where(fill[0].node), "the remaining total is never reduced by the index given to a child: every child is read at the parent's full total", construct=Q, stmt="total decrement")
+        return
     if len(reset) != 1 or len(tot) != 1 or len(fill) != 1:
         raise AnalysisError("C10/X4: expected one 'max_idx' vector store, one pointer store and one total update in %s, found %d/%d/%d" % (Q, len(reset), len(fill), len(tot)))
     reset, tot, fill = reset[0], tot[0], fill[0]
@@ -815,7 +840,7 @@ def _root_index(val, root_node):
 # --------------------------------------------------------------------------- X5
 def rule_X5(ctx, info):
     prog = ctx.prog
-    ctx.rule("X5", "outputs: ccf = idx/(grid-1) (grid from axis 1), clonal_prev = ccf - sum(children ccf) without writing through, whole pipeline on one graph, virtual root deleted from both dictionaries, consumer order", 12)
+    ctx.rule("X5", "outputs: ccf = idx/(grid-1) (grid from axis 1), clonal_prev = ccf - sum(children ccf) without writing through, whole pipeline on one graph, virtual root deleted from both dictionaries, consumer order", 8)
     # ---- ccf
     f = prog.fn(MAP + "get_map_ccfs")
     Q = f.qualname
@@ -835,7 +860,7 @@ def rule_X5(ctx, info):
             out[node] = np.array([idx / (grid - 1) for idx in graph.nodes[node]["max_idx"]])
             for c in graph.successors(node):
                 get_map_ccfs(graph, c, out)
-        """ % used.pop(), f)
+        """ % used.pop(), f, no_inline=["get_map_ccfs"])
     k = (vkey(P(2)), vkey(P(1)))
     got = ex.sub_stores().get(k)
     if got is None:
@@ -853,7 +878,7 @@ def rule_X5(ctx, info):
             out[node] = ccf[node] - sum(ccf[c] for c in tree.successors(node))
             for c in tree.successors(node):
                 get_map_clonal_prev(tree, c, ccf, out)
-        """, f)
+        """, f, no_inline=["get_map_clonal_prev"])
     k = (vkey(P(3)), vkey(P(1)))
     got = ex.sub_stores().get(k)
     sts = _stores(ex)
@@ -865,53 +890,107 @@ def rule_X5(ctx, info):
     _no_write_through(ctx, f)
     ctx.analysed(f)
     # ---- pipeline
+    _pipeline(ctx, info)
+    _consumer(ctx, info)
+
+
+def _handle(v):
+    """Identity of a dictionary value: the abstract object itself, or the term that denotes it."""
+    if isinstance(v, (ADict, AList)):
+        return ("obj", id(v))
+    return ("key", _strip_upd(vkey(v)))
+
+
+def _wrapper(prog, stage, mod):
+    """Same-module top-level helpers (other than the stage itself) that call `stage` by name."""
+    hits = []
+    for fi in prog.functions.values():
+        if fi.module is mod and fi.name != stage and fi.parent is None and fi.cls is None:
+            if any(isinstance(n, ast.Call) and isinstance(n.func, ast.Name) and n.func.id == stage for n in ast.walk(fi.node)):
+                hits.append(fi)
+    return hits
+
+
+def _pipeline(ctx, info):
+    prog = ctx.prog
     f = prog.fn(MAP + "get_map_node_ccfs_and_clonal_prev_dicts")
     Q = f.qualname
     stages = ["compute_max_likelihood", "set_max_assignment", "get_map_ccfs", "get_map_clonal_prev"]
-    ex = extract(prog, f, no_inline=stages)
-    evs = [e for e in ex.events if e.name in stages]
-    ok = [e.name for e in evs] == stages
-    ctx.check(ok, "X5", "pipeline: forward pass, traceback, ccf, clonal prevalence, in this order, once each", f.where(), "the stages run as %s" % [e.name for e in evs], construct=Q, stmt="stage order")
+    wrap = {}
+    for st in stages[2:]:
+        ws = [w for w in _wrapper(prog, st, f.module) if w is not f]
+        if len(ws) > 1:
+            raise AnalysisError("C10/X5: several helpers call %s: %s" % (st, [w.qualname for w in ws]))
+        if ws:
+            w = ws[0]
+            wx = extract(prog, w, no_inline=stages)
+            ev = wx.calls(st)
+            if len(ev) != 1:
+                raise AnalysisError("C10/X5: %s does not call %s exactly once" % (w.qualname, st))
+            pidx = {vkey(P(n)): n for n in range(len(w.params))}
+            amap = [pidx.get(vkey(a)) if not isinstance(a, (ADict, AList)) else None for a in ev[0].args]
+            out = ev[0].args[-1]
+            ok = isinstance(out, ADict) and not out.items and wx.result is out and all(x is not None for x in amap[:-1])
+            ctx.check(ok, "X5", "%s: fills a fresh dictionary through %s and returns that dictionary" % (w.name, st), w.where(ev[0].node),
+                      "%s(%s) is not called on the helper's own parameters plus one fresh dictionary that is then returned" % (st, ", ".join(show(a) for a in ev[0].args)), construct=w.qualname, stmt="wrapper of " + st)
+            wrap[st] = (w, amap[:-1])
+            ctx.analysed(w)
+    ex = extract(prog, f, no_inline=stages + [w.name for w, _ in wrap.values()])
+    seq = []
+    for e in ex.events:
+        if e.name in stages and e.name not in wrap:
+            seq.append((e.name, list(e.args), None, e))
+        for st, (w, amap) in wrap.items():
+            if e.name == w.name:
+                if len(e.args) != len(w.params) or e.kwargs:
+                    raise AnalysisError("C10/X5: %s is not called positionally with all its parameters in %s" % (w.name, Q))
+                res = Poly.atom(("call", w.name, tuple(vkey(a) for a in e.args), ()))
+                seq.append((st, [e.args[n] for n in amap] + [res], res, e))
+    ok = [x[0] for x in seq] == stages
+    ctx.check(ok, "X5", "pipeline: forward pass, traceback, ccf, clonal prevalence, in this order, once each", f.where(), "the stages run as %s" % [x[0] for x in seq], construct=Q, stmt="stage order")
     if not ok:
         return
-    G, root = evs[0].args[0], evs[0].args[1] if len(evs[0].args) > 1 else None
+    a0 = seq[0][1]
+    G, root = a0[0], a0[1] if len(a0) > 1 else None
     ga = _atom(G)
     ok = ga is not None and ga[0] == "call" and ga[1] == "convert_rustworkx_to_networkx" and len(ga[2]) == 1 and ga[2][0] == vkey(_attr(P(0), "_graph"))
-    ctx.check(ok, "X5", "pipeline: the graph is the conversion of the tree's own graph", f.where(evs[0].node), "the analysed graph is %s" % show(G), construct=Q, stmt="graph source")
-    ok = root is not None and vkey(root) == vkey(_attr(P(0), "root_node_name")) and all(len(e.args) >= 2 and vkey(e.args[0]) == vkey(G) and vkey(e.args[1]) == vkey(root) for e in evs)
-    ctx.check(ok, "X5", "pipeline: all four stages run on the same graph from tree.root_node_name", f.where(evs[0].node),
-              "stage arguments differ: %s" % ["%s(%s)" % (e.name, ", ".join(show(a) for a in e.args[:2])) for e in evs], construct=Q, stmt="same graph and root")
+    ctx.check(ok, "X5", "pipeline: the graph is the conversion of the tree's own graph", f.where(seq[0][3].node), "the analysed graph is %s" % show(G), construct=Q, stmt="graph source")
+    ok = root is not None and vkey(root) == vkey(_attr(P(0), "root_node_name")) and all(len(x[1]) >= 2 and vkey(x[1][0]) == vkey(G) and vkey(x[1][1]) == vkey(root) for x in seq)
+    ctx.check(ok, "X5", "pipeline: all four stages run on the same graph from tree.root_node_name", f.where(seq[0][3].node),
+              "stage arguments differ: %s" % ["%s(%s)" % (x[0], ", ".join(show(a) for a in x[1][:2])) for x in seq], construct=Q, stmt="same graph and root")
     r = ex.result
-    if not isinstance(r, ATuple) or len(r.items) != 2 or not all(isinstance(x, ADict) for x in r.items):
-        raise AnalysisError("C10/X5: %s does not return two dictionaries" % Q)
-    ccf_d = evs[2].args[2] if len(evs[2].args) == 3 else None
-    cp_in = evs[3].args[2] if len(evs[3].args) == 4 else None
-    cp_d = evs[3].args[3] if len(evs[3].args) == 4 else None
-    ok = ccf_d is not None and cp_d is not None and ccf_d is not cp_d and cp_in is ccf_d
-    ctx.check(ok, "X5", "pipeline: clonal prevalence is computed from the CCF dictionary just filled, into a second dictionary", f.where(evs[3].node), "get_map_clonal_prev does not receive the dictionary filled by get_map_ccfs and a different output dictionary", construct=Q, stmt="dictionary plumbing")
-    ok = r.items[0] is ccf_d and r.items[1] is cp_d
-    ctx.check(ok, "X5", "pipeline: returns (ccf dictionary, clonal-prevalence dictionary)", f.where(), "the returned pair is not (the dictionary filled by get_map_ccfs, the one filled by get_map_clonal_prev)", construct=Q, stmt="return order")
-    info["ret_pos"] = {"ccf": 0, "clonal_prev": 1}
+    if not isinstance(r, ATuple) or len(r.items) != 2:
+        raise AnalysisError("C10/X5: %s does not return a pair" % Q)
+    ccf_d = seq[2][1][2] if len(seq[2][1]) == 3 else None
+    cp_in = seq[3][1][2] if len(seq[3][1]) == 4 else None
+    cp_d = seq[3][1][3] if len(seq[3][1]) == 4 else None
+    ok = ccf_d is not None and cp_d is not None and _handle(ccf_d) != _handle(cp_d) and _handle(cp_in) == _handle(ccf_d)
+    ctx.check(ok, "X5", "pipeline: clonal prevalence is computed from the CCF dictionary just filled, into a second dictionary", f.where(seq[3][3].node), "get_map_clonal_prev does not receive the dictionary filled by get_map_ccfs and a different output dictionary", construct=Q, stmt="dictionary plumbing")
+    if not ok:
+        return
+    hs = [_handle(x) for x in r.items]
+    ok = sorted(hs) == sorted([_handle(ccf_d), _handle(cp_d)])
+    ctx.check(ok, "X5", "pipeline: returns the ccf dictionary and the clonal-prevalence dictionary", f.where(), "the returned pair %s is not the two dictionaries just filled" % show(r), construct=Q, stmt="returned pair")
+    if ok:
+        info["ret_pos"] = {"ccf": hs.index(_handle(ccf_d)), "clonal_prev": hs.index(_handle(cp_d))}
     # deletions of the virtual root
     deleted = []
     for n in ast.walk(f.node):
         tg = []
         if isinstance(n, ast.Delete):
-            tg = [t for t in n.targets if isinstance(t, ast.Subscript) and isinstance(t.value, ast.Name)]
-            tg = [(t.value.id, t.slice, t) for t in tg]
+            tg = [(t.value.id, t.slice, t) for t in n.targets if isinstance(t, ast.Subscript) and isinstance(t.value, ast.Name)]
         elif isinstance(n, ast.Call) and isinstance(n.func, ast.Attribute) and n.func.attr == "pop" and isinstance(n.func.value, ast.Name) and n.args:
             tg = [(n.func.value.id, n.args[0], n)]
         for name, key, where in tg:
             if name in ex.state.env:
                 kv = ex.interp._eval_in(key, f, ex.state.env)
-                deleted.append((ex.state.env[name], kv, where))
+                deleted.append((_handle(ex.state.env[name]), kv, where))
     for label, d in (("ccf", ccf_d), ("clonal prevalence", cp_d)):
-        hit = [(kv, w) for obj, kv, w in deleted if obj is d]
+        hit = [(kv, w) for h, kv, w in deleted if h == _handle(d)]
         ok = len(hit) == 1 and root is not None and vkey(hit[0][0]) == vkey(root)
         ctx.check(ok, "X5", "pipeline: virtual root removed from the %s dictionary" % label, f.where(hit[0][1]) if hit else f.where(),
-                  "the %s dictionary %s" % (label, "keeps the entry of the virtual root" if not hit else "loses entry %s, not the root" % show(hit[0][0])), construct=Q, stmt="del %s[root]" % label.split()[0])
+                  "the %s dictionary %s" % (label, "keeps the entry of the virtual root" if not hit else "loses entry %s, not the root (or loses it %d times)" % (show(hit[0][0]), len(hit))), construct=Q, stmt="del %s[root]" % label.split()[0])
     ctx.analysed(f)
-    _consumer(ctx, info)
 
 
 def _no_write_through(ctx, f):
@@ -975,4 +1054,74 @@ def run(ctx):
     rule_X5(ctx, info)
 
 
-SELFTEST = []
+# Self-test catalogue: one textual edit each (or a list of edits), applied to a scratch copy (see selftest.py).
+_M = "phyclone/process_trace/map.py"
+_U = "phyclone/process_trace/utils.py"
+_PT = "phyclone/process_trace/process_trace.py"
+SELFTEST = [
+    # ---- Appendix A
+    {"name": "X1-range-i", "kind": "break", "rule": "X1", "file": _M, "old": "for j in range(i + 1):", "new": "for j in range(i):"},
+    {"name": "X1-prev-index-off-by-one", "kind": "break", "rule": "X1", "file": _M, "old": "prev_log_D_n[i - j]", "new": "prev_log_D_n[i - j - 1]"},
+    {"name": "X1-choice-outside-guard", "kind": "break", "rule": "X1", "file": _M, "old": "            if val >= result[i]:\n                choice[i] = j\n\n                result[i] = val", "new": "            choice[i] = j\n            if val >= result[i]:\n                result[i] = val"},
+    {"name": "X4-forward-child-order", "kind": "break", "rule": "X4", "file": _M, "old": "for i in range(len(children) - 1, -1, -1):", "new": "for i in range(len(children)):"},
+    {"name": "X4-root-index-minus-2", "kind": "break", "rule": "X4", "file": _M, "old": "[\"max_idx\"] = np.ones(num_dims, dtype=int) * (num_vals - 1)", "new": "[\"max_idx\"] = np.ones(num_dims, dtype=int) * (num_vals - 2)"},
+    {"name": "X5-divide-by-grid", "kind": "break", "rule": "X5", "file": _M, "old": "x / (num_dims - 1)", "new": "x / num_dims"},
+    {"name": "X5-clonal-prev-plus", "kind": "break", "rule": "X5", "file": _M, "old": "clonal_prev -= ccf_dict[child]", "new": "clonal_prev += ccf_dict[child]"},
+    # ---- own
+    {"name": "X1-guard-keeps-minimum", "kind": "break", "rule": "X1", "file": _M, "old": "if val >= result[i]:", "new": "if val <= result[i]:"},
+    {"name": "X1-result-starts-at-zero", "kind": "break", "rule": "X1", "file": _M, "old": "result = np.ones(grid_size) * -np.inf", "new": "result = np.zeros(grid_size)"},
+    {"name": "X1-result-starts-at-plus-inf", "kind": "break", "rule": "X1", "file": _M, "old": "result = np.ones(grid_size) * -np.inf", "new": "result = np.ones(grid_size) * np.inf"},
+    {"name": "X1-pointer-is-remainder", "kind": "break", "rule": "X1", "file": _M, "old": "choice[i] = j", "new": "choice[i] = i - j"},
+    {"name": "X1-outer-bound-short", "kind": "break", "rule": "X1", "file": _M, "old": "    for i in range(grid_size):\n        for j in range(i + 1):", "new": "    for i in range(grid_size - 1):\n        for j in range(i + 1):"},
+    {"name": "X1-dropped-prev-term", "kind": "break", "rule": "X1", "file": _M, "old": "val = child_log_R[j] + prev_log_D_n[i - j]", "new": "val = child_log_R[j]"},
+    {"name": "X1-fold-wrong-row", "kind": "break", "rule": "X1", "file": _M, "old": "_compute_log_D_n(child_log_R[i, :], log_D[i, :])", "new": "_compute_log_D_n(child_log_R[i, :], log_D[0, :])"},
+    {"name": "X1-fold-choices-not-reset", "kind": "break", "rule": "X1", "file": _M, "old": "    for child_log_R in child_log_R_values:\n        child_choices = []\n", "new": "    child_choices = []\n    for child_log_R in child_log_R_values:\n"},
+    {"name": "X1-fold-reversed-children", "kind": "break", "rule": "X1", "file": _M, "old": "for child_log_R in child_log_R_values:", "new": "for child_log_R in reversed(child_log_R_values):"},
+    {"name": "X1-fold-swapped-unpack", "kind": "break", "rule": "X1", "file": _M, "old": "choice, log_D[i, :] = _compute_log_D_n(", "new": "log_D[i, :], choice = _compute_log_D_n("},
+    {"name": "X2-column-0-not-copied", "kind": "break", "rule": "X2", "file": _M, "old": "    log_S[:, 0] = log_D[:, 0]\n", "new": "    pass\n"},
+    {"name": "X2-columns-from-2", "kind": "break", "rule": "X2", "file": _M, "old": "for j in range(1, grid_size):", "new": "for j in range(2, grid_size):"},
+    {"name": "X2-rows-short", "kind": "break", "rule": "X2", "file": _M, "old": "        for j in range(1, grid_size):", "new": "        for j in range(1, grid_size - 1):"},
+    {"name": "X2-pointer-arm-mismatch", "kind": "break", "rule": "X2", "file": _M, "old": "log_S_choice[i, j] = log_S_choice[i, j - 1]", "new": "log_S_choice[i, j] = j - 1"},
+    {"name": "X2-guard-flipped", "kind": "break", "rule": "X2", "file": _M, "old": "if log_D[i, j] > log_S[i, j - 1]:", "new": "if log_D[i, j] < log_S[i, j - 1]:"},
+    {"name": "X2-compares-with-D-prev", "kind": "break", "rule": "X2", "file": _M, "old": "if log_D[i, j] > log_S[i, j - 1]:", "new": "if log_D[i, j] > log_D[i, j - 1]:"},
+    {"name": "X3-drop-log_p", "kind": "break", "rule": "X3", "file": _M, "old": "node[\"log_R_max\"] = node[\"log_p\"] + node[\"log_S_max\"]", "new": "node[\"log_R_max\"] = node[\"log_S_max\"]"},
+    {"name": "X3-children-sum-product-R", "kind": "break", "rule": "X3", "file": _M, "old": "graph.nodes[child_id][\"log_R_max\"] for child_id in children", "new": "graph.nodes[child_id][\"log_R\"] for child_id in children"},
+    {"name": "X3-edge-direction-reversed", "kind": "break", "rule": "X3", "file": _U, "old": "(graph[x[0]].node_id, graph[x[1]].node_id, ", "new": "(graph[x[1]].node_id, graph[x[0]].node_id, "},
+    {"name": "X4-tables-stored-swapped", "kind": "break", "rule": "X4", "file": _M, "old": "node[\"log_D_choice\"], node[\"log_S_choice\"], node[\"log_S_max\"] = compute_log_S", "new": "node[\"log_S_choice\"], node[\"log_D_choice\"], node[\"log_S_max\"] = compute_log_S"},
+    {"name": "X4-total-incremented", "kind": "break", "rule": "X4", "file": _M, "old": "child_total_idx[d] -= graph.nodes[child][\"max_idx\"][d]", "new": "child_total_idx[d] += graph.nodes[child][\"max_idx\"][d]"},
+    {"name": "X4-total-never-decremented", "kind": "break", "rule": "X4", "file": _M, "old": "            child_total_idx[d] -= graph.nodes[child][\"max_idx\"][d]\n", "new": "            pass\n"},
+    {"name": "X4-start-total-off-by-one", "kind": "break", "rule": "X4", "file": _M, "old": "[\"log_S_choice\"][d, idxs[d]]", "new": "[\"log_S_choice\"][d, idxs[d] - 1]"},
+    {"name": "X4-start-total-skips-S", "kind": "break", "rule": "X4", "file": _M, "old": "child_total_idx = [graph.nodes[node][\"log_S_choice\"][d, idxs[d]] for d in range(num_dims)]", "new": "child_total_idx = [idxs[d] for d in range(num_dims)]"},
+    {"name": "X4-recursion-parent-vector", "kind": "break", "rule": "X4", "file": _M, "old": "_set_max_assignment(graph, graph.nodes[child][\"max_idx\"], children[i])", "new": "_set_max_assignment(graph, idxs, children[i])"},
+    {"name": "X4-pointer-table-mirrored", "kind": "break", "rule": "X4", "file": _M, "old": "[\"log_D_choice\"][i][d, child_total_idx[d]]", "new": "[\"log_D_choice\"][len(children) - 1 - i][d, child_total_idx[d]]"},
+    {"name": "X4-sample-loop-short", "kind": "break", "rule": "X4", "file": _M, "old": "        for d in range(num_dims):\n            graph.nodes[child]", "new": "        for d in range(num_dims - 1):\n            graph.nodes[child]"},
+    {"name": "X4-root-vector-per-grid", "kind": "break", "rule": "X4", "file": _M, "old": "[\"max_idx\"] = np.ones(num_dims, dtype=int) * (num_vals - 1)", "new": "[\"max_idx\"] = np.ones(num_vals, dtype=int) * (num_vals - 1)"},
+    {"name": "X4-recursion-inside-sample-loop", "kind": "break", "rule": "X4", "file": _M, "old": "        _set_max_assignment(graph, graph.nodes[child][\"max_idx\"], children[i])", "new": "            _set_max_assignment(graph, graph.nodes[child][\"max_idx\"], children[i])"},
+    {"name": "X5-grid-from-axis-0", "kind": "break", "rule": "X5", "file": _M, "old": "num_dims = graph.nodes[node][\"log_R\"].shape[1]", "new": "num_dims = graph.nodes[node][\"log_R\"].shape[0]"},
+    {"name": "X5-root-kept-in-clonal-prev", "kind": "break", "rule": "X5", "file": _M, "old": "    del clonal_prev_dict[root_node_name]\n", "new": ""},
+    {"name": "X5-clonal-prev-writes-through", "kind": "break", "rule": "X5", "file": _M, "old": "clonal_prev = ccf_dict[node].copy()", "new": "clonal_prev = ccf_dict[node]"},
+    {"name": "X5-consumer-swapped", "kind": "break", "rule": "X5", "file": _PT, "old": "ccfs, clonal_prev_dict = get_map_node_ccfs_and_clonal_prev_dicts(tree)", "new": "clonal_prev_dict, ccfs = get_map_node_ccfs_and_clonal_prev_dicts(tree)"},
+    {"name": "X5-children-not-visited", "kind": "break", "rule": "X5", "file": _M, "old": "        get_map_ccfs(graph, child, result)", "new": "        get_map_ccfs(graph, node, result)"},
+    {"name": "X5-traceback-skipped", "kind": "break", "rule": "X5", "file": _M, "old": "    set_max_assignment(graph, root_node_name)\n", "new": ""},
+    # ---- benign
+    {"name": "benign-np-full-neg-inf", "kind": "benign", "file": _M, "old": "result = np.ones(grid_size) * -np.inf", "new": "result = np.full(grid_size, -np.inf)"},
+    {"name": "benign-rename-idxs", "kind": "benign", "edits": [
+        {"file": _M, "old": "def _set_max_assignment(graph, idxs, node):", "new": "def _set_max_assignment(graph, parent_index, node):"},
+        {"file": _M, "old": "num_dims = len(idxs)", "new": "num_dims = len(parent_index)"},
+        {"file": _M, "old": "[d, idxs[d]]", "new": "[d, parent_index[d]]"}]},
+    {"name": "benign-split-candidate", "kind": "benign", "file": _M, "old": "            val = child_log_R[j] + prev_log_D_n[i - j]\n\n            if val >= result[i]:", "new": "            a = prev_log_D_n[i - j]\n            b = child_log_R[j]\n            val = a + b\n            cur = result[i]\n            if cur <= val:"},
+    {"name": "benign-strict-tie-break", "kind": "benign", "file": _M, "old": "if val >= result[i]:", "new": "if val > result[i]:"},
+    {"name": "benign-flip-arms-of-running-max", "kind": "benign", "file": _M,
+     "old": "            if log_D[i, j] > log_S[i, j - 1]:\n                log_S[i, j] = log_D[i, j]\n\n                log_S_choice[i, j] = j\n\n            else:\n                log_S[i, j] = log_S[i, j - 1]\n\n                log_S_choice[i, j] = log_S_choice[i, j - 1]\n",
+     "new": "            if log_S[i, j - 1] >= log_D[i, j]:\n                log_S_choice[i, j] = log_S_choice[i, j - 1]\n                log_S[i, j] = log_S[i, j - 1]\n            else:\n                log_S_choice[i, j] = j\n                log_S[i, j] = log_D[i, j]\n"},
+    {"name": "benign-extract-helper", "kind": "benign", "edits": [
+        {"file": _M, "old": "val = child_log_R[j] + prev_log_D_n[i - j]", "new": "val = _candidate(child_log_R, prev_log_D_n, i, j)"},
+        {"file": _M, "old": "def get_map_ccfs(graph, node, result):", "new": "def _candidate(c, p, tot, k):\n    return p[tot - k] + c[k]\n\n\ndef get_map_ccfs(graph, node, result):"}]},
+    {"name": "benign-print-in-traceback", "kind": "benign", "file": _M, "old": "        child = children[i]\n", "new": "        child = children[i]\n        print(\"tracing\", child)\n"},
+    {"name": "benign-reversed-range", "kind": "benign", "file": _M, "old": "for i in range(len(children) - 1, -1, -1):", "new": "for i in reversed(range(len(children))):"},
+    {"name": "benign-clonal-prev-as-sum", "kind": "benign", "file": _M, "old": "    clonal_prev = ccf_dict[node].copy()\n\n    for child in tree.successors(node):\n        clonal_prev -= ccf_dict[child]\n\n        get_map_clonal_prev", "new": "    clonal_prev = ccf_dict[node] - sum(ccf_dict[c] for c in tree.successors(node))\n\n    for child in tree.successors(node):\n        get_map_clonal_prev"},
+    {"name": "benign-pop-root", "kind": "benign", "file": _M, "old": "    del ccf_dict[root_node_name]\n", "new": "    ccf_dict.pop(root_node_name)\n"},
+    {"name": "benign-rows-from-child-shape", "kind": "benign", "file": _M, "old": "        for i in range(num_dims):\n            choice, log_D[i, :]", "new": "        for i in range(child_log_R.shape[0]):\n            choice, log_D[i, :]"},
+    {"name": "benign-grid-from-log_p", "kind": "benign", "file": _M, "old": "num_dims = graph.nodes[node][\"log_R\"].shape[1]", "new": "num_dims = graph.nodes[node][\"log_p\"].shape[1]"},
+    {"name": "benign-leaf-test-not-children", "kind": "benign", "file": _M, "old": "    if len(children) == 0:\n        node[\"log_S_max\"]", "new": "    if not children:\n        node[\"log_S_max\"]"},
+]
